@@ -9,7 +9,7 @@ EXPLANATION = ('Static rules on the conversion sinks and the completion status: 
                'sends at least one message on every path; R2 the stream ends after a terminal (end marker sent, or poll_next maps the closed '
                'channel to Ready(None) and constructs Pending only by propagating the inner poll); R3 StatusFuture::poll registers its waker '
                'before the flag read that decides Pending (no lost wake-up); R4 the producer stores the flag before wake(), after the '
-               'downstream terminal; R5 future observer complete = send then close; R6 the message sent by error() carries the err argument on every path (the outcome reported is the error of the source). Decides the hand-off protocol; does not decide which '
+               'downstream terminal; R5 future observer complete = send then close; R7 the sinks report finished only when the waiting side dropped the channel (otherwise a hot source skips them at its terminal and the future never resolves); R6 the message sent by error() carries the err argument on every path (the outcome reported is the error of the source). Decides the hand-off protocol; does not decide which '
                'value is produced (Empty/MultipleValues logic).')
 ASSUMPTIONS = ['futures unbounded channel and AtomicWaker behave as documented (a message sent before the sender is dropped is received; wake() after register() wakes)']
 
@@ -22,6 +22,7 @@ CONTROLS = [
     'R3|<verif_controls::CheckThenRegister as Future>::poll',
     'R4|<verif_controls::WakeBeforeStore<O> as Observer>::complete',
     'R6|<verif_controls::LossyErrorSink<T, E> as Observer>::error',
+    'R7|<verif_controls::EagerFinishedSink<T> as Observer>::is_finished',
 ]
 CONTROLS_OK = ['R3|<verif_controls::RegisterThenCheck as Future>::poll']
 
@@ -39,7 +40,7 @@ def _send_ev(n):
 
 
 def check(cx):
-    return r1_r5(cx) + r2(cx) + r3(cx) + r4(cx) + r6(cx)
+    return r1_r5(cx) + r2(cx) + r3(cx) + r4(cx) + r6(cx) + r7(cx)
 
 
 def r1_r5(cx):
@@ -241,4 +242,30 @@ def r6(cx):
                            fn['span'], witness(g, pred, bad[0], interesting_default) if bad else None))
     if not cx.control and n < 2:
         res.append(Finding(ID, 'R6', 'floor', False, 'conversion sinks not found'))
+    return res
+
+
+def r7(cx):
+    """the conversion sinks report finished only when the waiting side dropped the channel: a hot source (Subject, from_stream)
+    skips subscribers that report finished when it terminates, so a sink that reports finished for any other reason never gets
+    the terminal and the future/stream stays pending forever"""
+    res = []
+    n = 0
+    for im in cx.observer_impls():
+        tag = roles.impl_tag(cx, im)
+        if tag not in SINKS and not (cx.control and tag == 'verif_controls::EagerFinishedSink'):
+            continue
+        n += 1
+        fn = cx.method(im, 'is_finished')
+        g = cx.graph(fn['key'])
+        closed = [x for x in g.nodes if x['kind'] == 'call' and x['name'].rsplit('::', 1)[-1] == 'is_closed']
+        other = [x for x in g.nodes if (x['kind'] == 'switch') or (x['kind'] == 'call' and x not in closed and x['name'].rsplit('::', 1)[-1] not in ('deref', 'as_ref'))
+                 or (x['kind'] == 'assign' and not x['ctx'] and x['lhs'][0] == 'local' and x['lhs'][1] == 0 and strip(x['rhs'])[0] == 'const')]
+        ok = len(closed) == 1 and not other
+        res.append(Finding(ID, 'R7', cx.label(fn), ok,
+                           'finished = the receiving side dropped the channel' if ok else
+                           'is_finished() depends on more than the channel being closed: a hot source skips a subscriber that reports finished when it terminates, so the terminal never reaches the sink and the future/stream never resolves',
+                           fn['span'], [node_desc(g, x) for x in other[:3]]))
+    if not cx.control and n < 2:
+        res.append(Finding(ID, 'R7', 'floor', False, 'conversion sinks not found'))
     return res
